@@ -85,7 +85,11 @@ impl World {
         self.r.blockchain_mock.state.accounts.get_mut(a).unwrap().esdt
             .increase_balance(token.to_vec(), nonce, &BigUint::from(amount), Default::default());
     }
-    pub fn set_time(&mut self, t: u64) { self.r.blockchain_mock.state.current_block_info.block_timestamp = t; }
+    /// a new block at time t: the block before it carries the time that was current until now (the contracts only ever read the current block's)
+    pub fn set_time(&mut self, t: u64) {
+        let st = &mut self.r.blockchain_mock.state; let cur = st.current_block_info.block_timestamp;
+        if t != cur { st.previous_block_info.block_timestamp = cur; }
+        st.current_block_info.block_timestamp = t; }
     pub fn time(&self) -> u64 { self.r.blockchain_mock.state.current_block_info.block_timestamp }
 
     fn snapshot(&self) -> Snapshot {
